@@ -31,6 +31,10 @@ pub enum Submit {
 	AggregateWithFresh { a: u16, ins: Vec<u16> },
 	/// fee below the minimum for its weight
 	LowFee { ins: Vec<u16> },
+	/// aggregate of a pooled transaction and a fresh one paying below ITS minimum (the pooled one may
+	/// overpay enough for the aggregate as a whole to look fee-paying): after deaggregation the
+	/// remainder is the low-fee transaction and must be refused
+	AggregateWithLowFee { a: u16, ins: Vec<u16> },
 	/// heavier than a block can carry
 	OverWeight { ins: Vec<u16> },
 }
@@ -62,6 +66,7 @@ fn submit() -> impl Strategy<Value = Submit> {
 		2 => (any::<u16>(), any::<u16>()).prop_map(|(a, b)| Submit::AggregateOfPooled { a, b }),
 		2 => (any::<u16>(), picks()).prop_map(|(a, ins)| Submit::AggregateWithFresh { a, ins }),
 		2 => picks().prop_map(|ins| Submit::LowFee { ins }),
+		2 => (any::<u16>(), picks()).prop_map(|(a, ins)| Submit::AggregateWithLowFee { a, ins }),
 		1 => picks().prop_map(|ins| Submit::OverWeight { ins }),
 	]
 }
@@ -459,6 +464,43 @@ pub fn run_case(ctx: &Ctx, case: &Case, counting: bool) -> PResult {
 								env.w.note(o);
 							}
 							Some((assemble(&spec).0, Some(true), "low-fee"))
+						}
+					}
+					Submit::AggregateWithLowFee { a, ins } => {
+						let t = env.pool.txpool.all_transactions();
+						let inputs = take(&utxo, ins);
+						// the pooled partner that overpays most (so that the aggregate as a whole pays enough)
+						let partner = {
+							let mut c: Vec<&Transaction> = t.iter().collect();
+							c.sort_by_key(|x| std::cmp::Reverse(x.shifted_fee().saturating_sub(x.accept_fee())));
+							let n = c.len().min(2);
+							if n == 0 { None } else { Some(c[*a as usize % n].clone()) }
+						};
+						match (partner, inputs.is_empty()) {
+							(Some(x), false) => {
+								let total: u64 = inputs.iter().map(|o| o.amount).sum();
+								let weight = Transaction::weight_by_iok(inputs.len() as u64, 1, 1);
+								let fee = (weight * FEE_BASE - 1).max(1);
+								let outs = env.fresh_outputs(total - fee, 1);
+								let spec = TxSpec {
+									inputs,
+									outputs: outs,
+									kernels: vec![KernelSpec::plain(fee)],
+									zero_offset: false,
+								};
+								for o in spec.inputs.iter().chain(spec.outputs.iter()) {
+									env.w.note(o);
+								}
+								let low = assemble(&spec).0;
+								let overpaid = x.shifted_fee() > x.accept_fee();
+								if counting {
+									ev.class(if overpaid { "aggregate_with_low_fee:partner_overpays" } else { "aggregate_with_low_fee:partner_pays_minimum" });
+								}
+								// fluff: the pool deaggregates to the low-fee remainder (must be refused); stem: the
+								// aggregate is judged as one transaction (either outcome; the invariant decides)
+								transaction::aggregate(&[x, low]).ok().map(|tx| (tx, if *stem { Option::None } else { Some(true) }, "aggregate-with-low-fee"))
+							}
+							_ => None,
 						}
 					}
 					Submit::OverWeight { ins } => {
